@@ -185,6 +185,8 @@ type Env struct {
 	lastForeign string
 	heldVer  *integrity.Verifier      // a Verifier kept across operations (vhold / vheld)
 	heldRes  []integrity.VerifyResult // what its callback was handed during the latest Verify
+	faultCtl bool           // interpose the controllable recorder (as crashCtl) without the C09 crash oracle
+	desync   bool           // an injected store failure left handle and file apart; cleared by the next successful modification
 	crashCtl bool           // C09: interpose a controllable recorder on every backing store
 	ctl      *ctlRW         // the interposer of the current handle
 	stats    map[string]int // campaign counters
@@ -324,7 +326,7 @@ func (e *Env) rw() (sif.ReadWriter, error) {
 	if e.wrap != nil {
 		rw = e.wrap(rw)
 	}
-	if e.crashCtl || crashMode {
+	if e.crashCtl || crashMode || e.faultCtl {
 		e.ctl = &ctlRW{inner: rw}
 		rw = e.ctl
 	}
@@ -337,6 +339,65 @@ type timeBracket struct{ before, after int64 }
 
 // Apply executes op and returns the observation lines the driver must reproduce.
 func (e *Env) Apply(op *Op) []string {
+	if op.FaultAt > 0 && e.f != nil && e.ctl != nil {
+		// the backing store fails one call of this operation; the handle stays in use
+		times := func() map[string]int64 {
+			m := map[string]int64{"hdr": e.f.ModifiedAt().Unix()}
+			k := 0
+			e.f.WithDescriptors(func(d sif.Descriptor) bool {
+				m[fmt.Sprintf("c%d.%d", d.ID(), k)], m[fmt.Sprintf("m%d.%d", d.ID(), k)] = d.CreatedAt().Unix(), d.ModifiedAt().Unix()
+				k++
+				return false
+			})
+			return m
+		}
+		pre, t0 := times(), time.Now().Unix()
+		e.ctl.arm(op.FaultAt, op.FaultShort)
+		obs := e.applyCore(op)
+		t1 := time.Now().Unix()
+		if opFailed(obs) && e.f != nil {
+			// the clock reading the failed call used: a time it left on the handle, else irrelevant
+			op.Now = t0
+			for k, v := range times() {
+				if pv, ok := pre[k]; (!ok || pv != v) && v >= t0 && v <= t1 {
+					op.Now = v
+				}
+			}
+		}
+		fired, kind := e.ctl.fired, e.ctl.failKind
+		done := e.ctl.disarm()
+		if os.Getenv("FAULT_DEBUG") != "" {
+			if fh, err := os.OpenFile(os.Getenv("FAULT_DEBUG"), os.O_APPEND|os.O_CREATE|os.O_WRONLY, 0o644); err == nil {
+				fmt.Fprintf(fh, "fault-debug: %s at=%d short=%v fired=%v kind=%s obs=%v done=%d backend=%s\n", op.Kind, op.FaultAt, op.FaultShort, fired, kind, obs, len(done), e.backend)
+				fh.Close()
+			}
+		}
+		if fired {
+			m, j := faultPoint(done, kind)
+			op.Fault = fmt.Sprintf("%d:%d", m, j)
+			e.desync = true
+			if !opFailed(obs) {
+				e.pending = append(e.pending, &Violation{Prop: "C09", Key: "C09:fault", What: fmt.Sprintf("%s: the store failed a %s call and the operation reported %q", op.Kind, kind, strings.Join(obs, " | "))})
+			}
+		}
+		return obs
+	}
+	if isCrashOp(op.Kind) && e.desync && e.ctl != nil {
+		// (the crash oracle compares interrupted files with the handle's earlier view: it has
+		// nothing to say while handle and file are apart)
+		e.ctl.arm(0, false)
+		obs := e.applyCore(op)
+		wrote := false
+		for _, ev := range e.ctl.disarm() {
+			wrote = wrote || (ev.Kind == "write" && len(ev.P) > 0)
+		}
+		if len(obs) > 0 && !opFailed(obs) && wrote {
+			// every successful modification that writes at all writes the whole table and the
+			// header (SetPrimPart on the partition that already is primary writes nothing)
+			e.desync = false
+		}
+		return obs
+	}
 	if !(e.crashCtl || crashMode) || e.f == nil || e.ctl == nil || !isCrashOp(op.Kind) {
 		return e.applyCore(op)
 	}
